@@ -131,6 +131,43 @@ def run_zinc(rep, tier, want):
                 nid += 1
                 cases.append({'id': nid, 'k': 'same', 'strict': True, 'text': [], 'a': ab, 'b': ab2})
                 info[nid] = ('C01', meta, text)
+        # scalar level: dump_scalar / parse_scalar (the scalar is judged inside a 1x1 carrier grid)
+        def carrier(ver, absv):
+            return [[18, absval.cps(ver), [], [[[118], []]], [[absv]]]]
+        kinds = ['null', 'marker', 'na', 'remove', 'bool', 'num', 'qty', 'str', 'uri', 'bin', 'ref', 'xstr', 'date', 'time',
+                 'dt', 'coord', 'list', 'dict', 'grid']
+        for kind in kinds:
+            for label in cat.labels(kind):
+                for ver in ('2.0', '3.0'):
+                    if ver == '2.0' and kind in ('na', 'xstr', 'list', 'dict', 'grid'):
+                        continue
+                    _, v = cat.value(kind, ver, label)
+                    meta = {'t': 'scalar', 'kind': kind, 'pos': 'scalar', 'ver': ver, 'payload': label}
+                    rep.case(json.dumps(meta, sort_keys=True))
+                    try:
+                        av = A.val(v)
+                        stext = hs.dump_scalar(v, mode=hs.MODE_ZINC, version=hs.Version(ver))
+                    except Exception as e:
+                        for p in want:
+                            found.append((p, dict(meta, engine='zinc', clause='dump_raises', exc=type(e).__name__),
+                                          {'plan': meta, 'exception': repr(e)[:300]}))
+                        continue
+                    if 'C04' in want:
+                        nid += 1
+                        cases.append({'id': nid, 'k': 'denotes', 'strict': True,
+                                      'text': absval.cps('ver:"%s"\nv\n%s\n' % (ver, stext)), 'expect': carrier(ver, av)})
+                        info[nid] = ('C04', meta, stext)
+                    if 'C01' in want:
+                        try:
+                            back = A.val(hs.parse_scalar(stext, mode=hs.MODE_ZINC, version=hs.Version(ver)))
+                        except Exception as e:
+                            found.append(('C01', dict(meta, engine='zinc', clause='parse_raises', exc=type(e).__name__),
+                                          {'plan': meta, 'text': stext, 'exception': repr(e)[:300]}))
+                            continue
+                        nid += 1
+                        cases.append({'id': nid, 'k': 'same', 'strict': True, 'text': [], 'a': carrier(ver, av),
+                                      'b': carrier(ver, back)})
+                        info[nid] = ('C01', meta, stext)
         verdicts = judge_cases(rep, work, cases, 'zinc')
         rep.traces += len(cases)
         for cid, (v, clause, pos) in sorted(verdicts.items()):
